@@ -423,6 +423,39 @@ Section ReadOne.
       + cbn [r_path]. rewrite H5'. eexists; eexists; reflexivity.
   Qed.
 
+  (* IN_CREATE|IN_ISDIR for a directory that is still empty when the reader looks: a watch may be added,
+     nothing is simulated *)
+  Lemma read_one_mkdir t r k acc e wdp :
+    alookup N.eqb (k_wd e) (pfw r) = Some wdp ->
+    is_moved_from (k_mask e) = false -> is_moved_to (k_mask e) = false ->
+    Emitter.is_ignored (k_mask e) = false ->
+    content t (rpath wdp (k_name e)) = Node [] [] ->
+    exists r' k', read_one C t (r, k, acc) e = Done (r', k', acc ++ [mkraw e (rpath wdp (k_name e))]).
+  Proof.
+    intros H1 H2 H3 H4 H5. unfold read_one. rewrite H1, H2, H3, H4. cbn [r_path].
+    fold (rpath wdp (k_name e)).
+    destruct (c_recursive C && is_directory (k_mask e) && is_create (k_mask e)).
+    - destruct (add_watch C r k t (rpath wdp (k_name e))) as [[[r3 k3] wd]|].
+      + rewrite H5. cbn. eexists; eexists; reflexivity.
+      + eexists; eexists; reflexivity.
+    - eexists; eexists; reflexivity.
+  Qed.
+
+  Lemma read_one_ignored t r k acc e path :
+    k_mask e = IN_IGNORED ->
+    alookup N.eqb (k_wd e) (pfw r) = Some path ->
+    alookup beqb path (wfp r) = Some (k_wd e) ->
+    read_one C t (r, k, acc) e =
+    Done ({| wfp := aremove beqb path (wfp r); pfw := aremove N.eqb (k_wd e) (pfw r); mvf := mvf r;
+             calls := calls r |}, k, acc ++ [mkraw e (rpath path (k_name e))]).
+  Proof.
+    intros Hm H1 H2. unfold read_one. rewrite H1, Hm.
+    change (is_moved_from IN_IGNORED) with false. change (is_moved_to IN_IGNORED) with false.
+    change (Emitter.is_ignored IN_IGNORED) with true. cbn iota. rewrite H1. cbn [wfp pfw].
+    rewrite H2, N.eqb_refl. cbn [wfp pfw mvf calls].
+    change (is_create IN_IGNORED) with false. rewrite andb_false_r. unfold mkraw, rpath. rewrite Hm. reflexivity.
+  Qed.
+
   Lemma group_pair f t c :
     nkind_of C f = KFrom c -> nkind_of C t = KTo c -> group_batch C [f; t] = [Pair f t].
   Proof.
@@ -430,6 +463,96 @@ Section ReadOne.
     rewrite Hf, N.eqb_refl. reflexivity.
   Qed.
 End ReadOne.
+
+(* ---- file-system facts *)
+Lemma filter_none {A} (f : A -> bool) l : (forall x, In x l -> f x = false) -> filter f l = [].
+Proof.
+  induction l as [|a l IH]; intros H; simpl; [reflexivity|].
+  rewrite (H a (or_introl eq_refl)). apply IH. intros x Hx. apply H. now right.
+Qed.
+
+Lemma content_no_children t p :
+  (forall e, In e t -> is_child p (f_path e) = false) -> content t p = Node [] [].
+Proof.
+  intros H. unfold content. destruct (fisdir p t); [|reflexivity].
+  destruct (length t); [reflexivity|]. cbn [content_fuel].
+  rewrite !filter_none; [reflexivity | |]; intros e He; rewrite (H e He); reflexivity.
+Qed.
+
+Lemma is_child_self p : is_child p p = false.
+Proof. unfold is_child. rewrite (beqb_refl p). now rewrite andb_false_r. Qed.
+
+Lemma has_children_false p t :
+  has_children p t = false -> forall e, In e t -> is_child p (f_path e) = false.
+Proof.
+  unfold has_children. intros H e He. destruct (is_child p (f_path e)) eqn:E; [|reflexivity].
+  assert (existsb (fun e => is_child p (f_path e)) t = true) by (apply existsb_exists; eauto). congruence.
+Qed.
+
+Lemma content_fresh_dir t p ino :
+  has_children p t = false ->
+  content (t ++ [{| f_path := p; f_ino := ino; f_dir := true |}]) p = Node [] [].
+Proof.
+  intros H. apply content_no_children. intros e He. apply in_app_iff in He as [He|[<-|[]]].
+  - now apply has_children_false with t.
+  - apply is_child_self.
+Qed.
+
+(* ---- the kernel drops a watch *)
+Definition kdrop (k : kst) (wd : N) : kst :=
+  {| k_watches := filter (fun x => negb (N.eqb (kw_wd x) wd)) (k_watches k); k_next_wd := k_next_wd k;
+     k_queue := k_queue k; k_next_cookie := k_next_cookie k |}.
+
+Definition kignored (w : kwatch) : kraw := {| k_wd := kw_wd w; k_mask := IN_IGNORED; k_cookie := 0; k_name := [] |}.
+
+Lemma kgone_hit k q c ino w :
+  watch_of_ino k ino = Some w -> kw_mask w = WATCHDOG_ALL ->
+  kgone (kset k q c) ino false =
+  kset (kdrop k (kw_wd w)) (kpush (kpush q (kev w IN_DELETE_SELF false 0 [])) (kignored w)) c.
+Proof.
+  intros Hw Hm. unfold kgone.
+  change (watch_of_ino (kset k q c) ino) with (watch_of_ino k ino). rewrite Hw.
+  rewrite (knotify_hit _ _ _ _ _ _ _ _ w Hw Hm) by reflexivity. reflexivity.
+Qed.
+
+Lemma kgone_miss k q c ino af :
+  watch_of_ino k ino = None -> kgone (kset k q c) ino af = kset k q c.
+Proof.
+  intros Hw. unfold kgone. change (watch_of_ino (kset k q c) ino) with (watch_of_ino k ino). now rewrite Hw.
+Qed.
+
+Lemma find_filter_some {A} (f g : A -> bool) l x : find f l = Some x -> g x = true -> find f (filter g l) = Some x.
+Proof.
+  induction l as [|a l IH]; simpl; [discriminate|]. destruct (f a) eqn:Ef.
+  - intros H Hg. inversion H; subst. rewrite Hg. simpl. now rewrite Ef.
+  - intros H Hg. destruct (g a); simpl; [rewrite Ef|]; auto.
+Qed.
+
+Lemma find_filter_none {A} (f g : A -> bool) l : find f l = None -> find f (filter g l) = None.
+Proof.
+  induction l as [|a l IH]; simpl; [reflexivity|]. destruct (f a) eqn:Ef; [discriminate|].
+  intros H. destruct (g a); simpl; [rewrite Ef|]; auto.
+Qed.
+
+Lemma watch_kdrop k wd ino w :
+  watch_of_ino k ino = Some w -> kw_wd w <> wd -> watch_of_ino (kdrop k wd) ino = Some w.
+Proof.
+  intros H Hn. unfold watch_of_ino, kdrop. cbn [k_watches]. apply find_filter_some; [exact H|].
+  apply negb_true_iff. now apply N.eqb_neq.
+Qed.
+
+Lemma watch_kdrop_none k wd ino : watch_of_ino k ino = None -> watch_of_ino (kdrop k wd) ino = None.
+Proof. intros H. unfold watch_of_ino, kdrop. cbn [k_watches]. now apply find_filter_none. Qed.
+
+Lemma alookup_aremove_neq {V} (m : list (N * V)) a b :
+  a <> b -> alookup N.eqb a (aremove N.eqb b m) = alookup N.eqb a m.
+Proof.
+  intros Hn. induction m as [|[x v] m IH]; simpl; [reflexivity|].
+  destruct (N.eqb b x) eqn:Eb.
+  - apply N.eqb_eq in Eb. subst x. rewrite IH. destruct (N.eqb a b) eqn:Ea; [|reflexivity].
+    apply N.eqb_eq in Ea. contradiction.
+  - simpl. now rewrite IH.
+Qed.
 
 (* ================================================================== 4. completeness, one operation at a time *)
 Definition delivers (C : cfg) (full : bool) (w : world) (k : kst) (r : rstate) (o : op) : Prop :=
@@ -638,4 +761,36 @@ Section Complete.
         generalize (dp ++ sep :: np) (dq ++ sep :: nq). intros p q.
         eexists. split; [reflexivity|]. destruct full; cbn; rewrite ?andb_false_r; reflexivity.
       + rewrite knotify_miss by exact Hcq. eexists; split; reflexivity.
+  Qed.
+
+  Lemma apply_mkdir_fs p w' :
+    apply_op w (Mkdir p) = Some w' ->
+    w_fs w' = w_fs w ++ [{| f_path := p; f_ino := w_next_ino w; f_dir := true |}].
+  Proof.
+    cbn [apply_op]. destruct (fisdir (dirname p) (w_fs w) && negb (fexists p (w_fs w))); [|discriminate].
+    intros H. inversion H. reflexivity.
+  Qed.
+
+  (* mkdir; "no entry of the tree lies directly under the not yet existing path" is part of the
+     well-formedness of the tree *)
+  Lemma contract_mkdir d n w' :
+    d <> [] -> last_is_sep d = false -> valid_name n = true ->
+    cover C r k (w_fs w) d ->
+    has_children (d ++ sep :: n) (w_fs w) = false ->
+    apply_op w (Mkdir (d ++ sep :: n)) = Some w' ->
+    delivers C full w k r (Mkdir (d ++ sep :: n)).
+  Proof.
+    intros Hd Hs Hn Hcov Hnc Happ. assert (Hfs := apply_mkdir_fs _ _ Happ).
+    start_op Happ Hd Hs Hn. unfold cover in Hcov.
+    destruct (watched_dir (c_recursive C) (c_root C) d).
+    - destruct Hcov as [wt [Hw [Hm [Hp Hf]]]].
+      rewrite !(knotify_hit _ _ _ _ _ _ _ _ wt Hw Hm) by reflexivity.
+      rewrite kpush_nil.
+      cbn [k_queue kset read_batch].
+      match goal with |- context [read_one C ?t (?r1, ?k1, ?acc) ?e] =>
+        destruct (read_one_mkdir C t r1 k1 acc e d) as [r' [k' Hrd]];
+          [exact Hp | reflexivity | reflexivity | reflexivity | | rewrite Hrd] end.
+      { cbn [k_name kev]. rewrite rpath_child by assumption. rewrite Hfs. now apply content_fresh_dir. }
+      finish_path d n.
+    - rewrite !knotify_miss by exact Hcov. eexists; split; reflexivity.
   Qed.
